@@ -63,7 +63,8 @@ def minmax_choices(out):
     the output range (rescaling slope 1) with a non-zero minimum."""
     if out == "float32":
         return [None, (0.0, 256.0), (-0.5, 0.0), (100.0, 164.0),
-                (1.0, 2.0), (None, 256.0), (-64.0, 0.0)]
+                (1.0, 2.0), (None, 256.0), (-64.0, 0.0),
+                (256.0, 0.0), (None, -64.0)]
     hi = ex.INT_RANGE[out][1]
     out_list = [None, (0.0, float(hi)), (0.0, float(2 * hi)),
                 (3.0, 3.0 + hi / 2.0)]
@@ -71,6 +72,11 @@ def minmax_choices(out):
     if out != "uint64":
         out_list.append((100.0, 100.0 + hi))
     out_list.append((None, float(2 * hi)))
+    # a descending range (inverted contrast), given in full and through the
+    # documented default of the lower bound
+    if out != "uint64":     # (float64 rounding of 2^64-wide ranges: see
+        out_list.append((255.0, 0.0))       # the tolerance in _eval_in)
+        out_list.append((None, -64.0))
     return out_list
 
 
@@ -353,6 +359,11 @@ def _eval_in(col, case, d, src_path=None):
     else:
         good = got.tobytes() == want.astype(got.dtype).tobytes()
         obs = None
+        if not good and len(np.argwhere(got != want)) == 0:
+            # equal values with other bytes: -0.0 where the exact reference
+            # has 0.0 (a descending input range multiplies by a negative
+            # slope); the statement is about values
+            good = True
         if not good and obs is None:
             bad = np.argwhere(got != want)
             obs = "(c,z,y,x)=%s: got %r, expected %r (%d voxels differ)" % (
